@@ -93,3 +93,13 @@ func (v *VerifSup) Notifications() [][2]ConnState {
 func (v *VerifSup) LastReacted() ConnState { return v.s.lastReacted }
 func (v *VerifSup) Closed() bool           { return v.s.closed }
 func (v *VerifSup) Dropped() uint64        { return v.s.droppedNotify.Load() }
+
+// VerifNewSupervisorNotifyCap is VerifNewSupervisor with a notification buffer of n entries: a
+// harness that never reads Notifications() during a run then plays a stalled handler, and the
+// supervisor's coalescing (emit) is reached after n+1 transitions instead of 17.
+func VerifNewSupervisorNotifyCap(n int) *VerifSup {
+	v := VerifNewSupervisor()
+	v.s.notify = make(chan stateChange, n)
+
+	return v
+}
